@@ -271,8 +271,41 @@ func installModels(e *Engine) {
 		f.R = nil
 		return StrV{Len: f.Len, B: f.B, R: &Rope{Toks: [][]StrV{{f}}}}, true
 	}
-	concreteOnly("strings.ToUpper", strings.ToUpper)
-	concreteOnly("strings.ToLower", strings.ToLower)
+	_ = concreteOnly
+	caseMap := func(name string, upper bool) {
+		e.intercept[name] = func(e *Engine, fr *Frame, c *Ctx, a []Value, _ *ssa.CallCommon) (Value, bool) {
+			sv := a[0].(StrV)
+			if cs, ok := sv.Concrete(); ok {
+				if upper {
+					return StrC(strings.ToUpper(cs)), true
+				}
+				return StrC(strings.ToLower(cs)), true
+			}
+			f := fl(sv)
+			out := make([]*Term, len(f.B))
+			var nonASCII []*Term
+			for i, b := range f.B {
+				live := Ult(BV(64, uint64(i)), f.Len)
+				nonASCII = append(nonASCII, And(live, Ule(BV(8, 0x80), b)))
+				if upper {
+					isLower := And(Ule(BV(8, 'a'), b), Ule(b, BV(8, 'z')))
+					out[i] = Ite(isLower, Sub(b, BV(8, 32)), b)
+				} else {
+					isUpper := And(Ule(BV(8, 'A'), b), Ule(b, BV(8, 'Z')))
+					out[i] = Ite(isUpper, Add(b, BV(8, 32)), b)
+				}
+			}
+			// the byte-wise model is exact for ASCII only: the harness must have assumed it
+			e.Obls = append(e.Obls, Obligation{Kind: "assert", ID: "engine: " + name + " model needs an ASCII argument", Cond: And(c.S.PC, Or(nonASCII...))})
+			res := StrV{Len: f.Len, B: out}
+			if sv.R != nil && len(sv.R.Toks) == 1 {
+				res.R = &Rope{Toks: [][]StrV{{StrV{Len: f.Len, B: out}}}} // case mapping never introduces '/'
+			}
+			return res, true
+		}
+	}
+	caseMap("strings.ToUpper", true)
+	caseMap("strings.ToLower", false)
 	e.intercept["reflect.ValueOf"] = func(e *Engine, fr *Frame, c *Ctx, a []Value, cc *ssa.CallCommon) (Value, bool) {
 		return zero(cc.Signature().Results().At(0).Type()), true
 	}
